@@ -2,6 +2,7 @@ package sx
 
 import (
 	"fmt"
+	"go/types"
 	"time"
 
 	"golang.org/x/tools/go/ssa"
@@ -268,6 +269,36 @@ func init() {
 		return nil
 	})
 	RegisterIntrinsic(p+"Symbolic", func(x *Exec, s *State, c *CallCtx) Value { return x.tb.True })
+	// PeekBool(p interface{}, field string) bool: load a (promoted, unexported) bool field
+	RegisterIntrinsic(p+"PeekBool", func(x *Exec, s *State, c *CallCtx) Value {
+		a := singleAlt(x, c.Args[0].(*IfaceVal), "PeekBool")
+		name := x.mustConcreteStr(c.Args[1], "PeekBool field")
+		pt, ok := a.T.Underlying().(*types.Pointer)
+		if !ok {
+			x.fail("PeekBool: not a pointer")
+		}
+		var pkg *types.Package
+		if nt, ok := pt.Elem().(*types.Named); ok {
+			pkg = nt.Obj().Pkg()
+		}
+		obj, index, _ := types.LookupFieldOrMethod(pt.Elem(), true, pkg, name)
+		if _, ok := obj.(*types.Var); !ok {
+			x.fail("PeekBool: no field %s in %s", name, pt.Elem())
+		}
+		cur := a.V.(*PtrVal)
+		for _, i := range index {
+			fa, ok := x.fieldAddr(s, cur, i)
+			if !ok {
+				return nil
+			}
+			cur = fa.(*PtrVal)
+		}
+		v, ok := x.load(s, cur, obj.Type())
+		if !ok {
+			return nil
+		}
+		return v
+	})
 	RegisterIntrinsic(p+"Unreachable", func(x *Exec, s *State, c *CallCtx) Value {
 		x.oblige(s, "assert", "unreachable: "+x.concreteName(c.Args[0]), s.G)
 		return nil
